@@ -174,6 +174,10 @@ def finish(pid, tier, seed, prof, recs, libs, timeout, known, t0, a, extra_cov=N
                                                          str(v2.get("detail"))[:1500].replace("\n", "\n  ")))
             exit_code = 1       # a reproduced violation decides the run, whatever else did not reproduce
     n_viol -= len(dismissed)
+    if len(dismissed) >= 6 and exit_code == 0:
+        print("HARNESS-ERROR %d cases exceeded their wall budget and returned in time when executed again: the machine is too "
+              "loaded for wall budgets to mean anything; no verdict" % len(dismissed))
+        exit_code = 2
     ginfo = {}
     if hasattr(prof, "global_check"):
         gv, ginfo = prof.global_check(total)
